@@ -516,3 +516,30 @@ impl<K: VT + Ord, V: VT> VT for BTreeMap<K, V> {
         match (K::FIXED, V::FIXED) { (Some(a), Some(b)) => 8 + (self.len() as u128) * ((a + b) as u128), _ => 8 }
     }
 }
+
+macro_rules! vt_atomic {
+    ($($at:ty, $t:ty, $w:expr);*) => {$(
+        impl VT for $at {
+            const FIXED: Option<usize> = Some($w);
+            fn any() -> Self { <$at>::new(anyv::<$t>()) }
+            fn enc(&self, out: &mut RefBuf) { self.load(std::sync::atomic::Ordering::SeqCst).enc(out) }
+            fn same(&self, o: &Self) -> bool { self.load(std::sync::atomic::Ordering::SeqCst) == o.load(std::sync::atomic::Ordering::SeqCst) }
+        }
+    )*};
+}
+vt_atomic!(std::sync::atomic::AtomicU8, u8, 1; std::sync::atomic::AtomicI8, i8, 1; std::sync::atomic::AtomicU16, u16, 2; std::sync::atomic::AtomicI16, i16, 2;
+           std::sync::atomic::AtomicU32, u32, 4; std::sync::atomic::AtomicI32, i32, 4; std::sync::atomic::AtomicU64, u64, 8; std::sync::atomic::AtomicI64, i64, 8;
+           std::sync::atomic::AtomicUsize, usize, 8; std::sync::atomic::AtomicIsize, isize, 8; std::sync::atomic::AtomicBool, bool, 1);
+impl<K: VT + Ord> VT for std::collections::BTreeSet<K> {
+    fn any() -> Self { let mut m = std::collections::BTreeSet::new(); if shape_len() >= 1 { m.insert(K::any()); } m }
+    fn enc(&self, out: &mut RefBuf) {
+        out.put(&(self.len() as u64).to_le_bytes());
+        for k in self.iter() { k.enc(out); }
+    }
+    fn same(&self, o: &Self) -> bool {
+        if self.len() != o.len() { return false; }
+        let mut it = o.iter();
+        for k in self.iter() { match it.next() { Some(k2) => { if !k.same(k2) { return false; } } None => return false } }
+        true
+    }
+}
